@@ -504,8 +504,53 @@ def pose_coherence(index: RepoIndex, rep, rule: str) -> None:
               f'would be stale', 'one copy of the pose')
 
 
+def held_item_kept(index: RepoIndex, rep, rule: str) -> None:
+    """the Agent constructor stores the held item it is given: the observation's agent is
+    always built through it, the state's held item is assigned directly, so a constructor that
+    filters its argument (only holdable objects, only keys) reports another item than the state
+    holds.  Every alternative value other than the parameter itself must be reachable only when
+    the parameter is None."""
+    from ..guards import (f_and, f_not, formula_of, parse_guard, prop_implies, show,
+                          strip_iter)
+    AG = 'gym_gridverse/agent.py'
+    c = index.cls(AG, 'Agent')
+    init = c.methods.get('__init__')
+    if init is None:
+        raise AnalysisError('anchor vanished: Agent.__init__')
+    ps = [a.arg for a in init.node.args.args]
+    if len(ps) < 4:
+        raise AnalysisError('Agent.__init__ does not take (position, orientation, grid_object)')
+    gp = ps[3]
+    w = walk_function(init.node)
+    stores = [e for e in w.events if e.kind == 'attrstore' and
+              src(e.target) == 'self.grid_object']
+    if not stores:
+        raise AnalysisError('Agent.__init__ does not store self.grid_object')
+
+    def alts(e, g):
+        if isinstance(e, ast.IfExp):
+            t = formula_of(e.test)
+            yield from alts(e.body, f_and(g, t))
+            yield from alts(e.orelse, f_and(g, f_not(t)))
+        else:
+            yield e, g
+    is_none = parse_guard(f'{gp} is None')
+    for e in stores:
+        for val, g in alts(w.expand(e.value), strip_iter(e.guard)):
+            if src(val) == gp:
+                rep.holds(rule, f'{AG}:Agent.__init__:{e.line}', f'keeps `{gp}`')
+                continue
+            bad = prop_implies(g, is_none)
+            rep.check(bad is None, rule, AG, 'Agent.__init__', e.line, src(e.stmt)[:160],
+                      f'the held item given to Agent(..) is replaced by `{src(val)}` when '
+                      f'`{show(g)[:100]}`, not only when it is None: the observation (whose agent '
+                      f'is built by this constructor) reports another item than the state holds',
+                      'held item stored as given')
+
+
 def agent_rule(index, rep, rule, pipe: Pipeline) -> None:
     pose_coherence(index, rep, rule)
+    held_item_kept(index, rep, rule)
     a = pipe.agent_expr
     fn = pipe.func
     if not (isinstance(a, ast.Call) and src(a.func) == 'Agent'):
